@@ -93,6 +93,8 @@ pub fn run(stim: &Value, rec: &Rec) {
             let mut b = http::Request::builder().method(stim["method"].as_str().unwrap_or("POST")).version(version_of(stim["version"].as_str().unwrap_or("HTTP/1.1"))).uri("/p.q.Svc/Unary");
             if let Some(ct) = stim["ctype"].as_str() { if ct != "none" { b = b.header("content-type", ct); } }
             if let Some(a) = stim["accept"].as_str() { if a != "none" { b = b.header("accept", a); } }
+            // gae: the caller's own grpc-accept-encoding, if it sends one
+            if let Some(a) = stim["gae"].as_str() { if a != "none" { b = b.header("grpc-accept-encoding", a); } }
             let (body, _) = script_body(&stim["chunks_req"], None);
             let req = b.body(Body::new(body)).unwrap();
             let resp = block_on(async { ServiceExt::<http::Request<Body>>::ready(&mut svc).await.unwrap().call(req).await }).unwrap();
